@@ -360,3 +360,23 @@ def run(ctx):
     ordered = any(isinstance(c, ast.Call) and call_name(c) == "sorted" and kwarg(c, "key") is not None and "call_order" in src(kwarg(c, "key")) for c in ast.walk(ch))
     rel_ordered = any(isinstance(n, ast.Call) and call_name(n) == "relationship" and kwarg(n, "order_by") is not None and "call_order" in src(kwarg(n, "order_by")) and "CallEdge" in src(n) for n in ast.walk(db.cls("CallNode")))
     r6.check(ordered or rel_ordered, f"{ser.rel}:CallNodeSerializer.serialize:children-order", "the exported child list is not ordered by call_order (the relationship has no order_by): the imported order depends on the row order the database happens to return", ser.rel, cser.lineno)
+
+    # ---- C23.7 rows that change after they were first written are refreshed by a later transfer -------
+    # put_records inserts records whose primary key is new and skips the rest ("repeating a transfer adds nothing", C23.4).  That is right for
+    # content-addressed rows; a Job row, however, is written at job start and completed by record_job_end (end_time, call_hash, cached).  A job
+    # transferred while it was running is never completed in the destination by any later transfer.
+    r7 = ctx.rule("C23.7", "models whose rows are completed after insertion are updated, not skipped, by a repeated transfer", floor=1)
+    rje = db.func("RedunBackendDb.record_job_end")
+    late_cols = sorted({t.attr for a in ast.walk(rje) if isinstance(a, ast.Assign) for t in a.targets if isinstance(t, ast.Attribute) and isinstance(t.value, ast.Name) and t.attr in ("end_time", "call_hash", "cached")})
+    if not late_cols:
+        raise AnalysisError("record_job_end: late-written Job columns not found", "RedunBackendDb.record_job_end")
+    tpr = src(pr)
+    updates_existing = ("merge(" in tpr) or any(isinstance(n, ast.If) and "existing_ids" in src(n.test) and n.orelse for n in ast.walk(pr))
+    r7.check(
+        updates_existing,
+        f"{db.rel}:RedunBackendDb.put_records:existing-job-rows",
+        f"record_job_end completes a Job row after it was inserted (columns {late_cols}), but put_records skips every record whose id already exists: a Job exported while it was still running "
+        "stays without end_time/call_hash (displayed RUNNING, not linked to its call node) in the destination, however often the finished execution is transferred again",
+        db.rel,
+        pr.lineno,
+    )
